@@ -10,6 +10,7 @@ import (
 	appsv1 "k8s.io/api/apps/v1"
 	corev1 "k8s.io/api/core/v1"
 	apiequality "k8s.io/apimachinery/pkg/api/equality"
+	apierrors "k8s.io/apimachinery/pkg/api/errors"
 	metav1 "k8s.io/apimachinery/pkg/apis/meta/v1"
 	"pgregory.net/rapid"
 
@@ -26,7 +27,10 @@ type C08Op struct {
 	// K: 0 reconcile, 1 template := Templates[A], 2 replicas, 3 add slot, 4 remove slots, 5 pause on, 6 pause off,
 	// 7 label/annotation edit, 8 history limit, 9 plant a revision colliding by name with the next one
 	// (B=0 different data, B=1 identical data), 10 kubelet readies everything, 11 plant an own revision with
-	// different data whose revision number ties with / exceeds / is below the current ones (A picks which)
+	// different data whose revision number ties with / exceeds / is below the current ones (A picks which),
+	// 12 reconcile during which the first ControllerRevision write meets trouble: A%3 = 0 a concurrent writer
+	// touched the revision (a real conflict on update, retried inside the controller), 1 the write is applied
+	// but reported as timed out, 2 server error
 	K int `json:"k"`
 	A int `json:"a,omitempty"`
 	B int `json:"b,omitempty"`
@@ -40,7 +44,7 @@ type C08Case struct {
 
 func (c C08Case) Summary() interface{} {
 	var ops []string
-	names := []string{"reconcile", "template", "replicas", "slotAdd", "slotsClear", "pauseOn", "pauseOff", "metaEdit", "limit", "plantCollision", "kubelet", "plantNumbered"}
+	names := []string{"reconcile", "template", "replicas", "slotAdd", "slotsClear", "pauseOn", "pauseOff", "metaEdit", "limit", "plantCollision", "kubelet", "plantNumbered", "reconcileRevisionWriteFault"}
 	for _, o := range c.Ops {
 		ops = append(ops, fmt.Sprintf("%s(%d,%d)", names[o.K], o.A, o.B))
 	}
@@ -89,11 +93,15 @@ func genC08(rt *rapid.T) C08Case {
 		// a rollback somewhere in the history: template a, reconcile, template b, reconcile, back to a, reconcile
 		a := rapid.IntRange(0, nt-1).Draw(rt, "rbA")
 		b := (a + 1 + rapid.IntRange(0, nt-2).Draw(rt, "rbB")) % nt
-		c.Ops = append(c.Ops, C08Op{K: 1, A: a}, C08Op{K: 0}, C08Op{K: 1, A: b}, C08Op{K: 0}, C08Op{K: 1, A: a}, C08Op{K: 0})
+		last := C08Op{K: 0}
+		if rapid.IntRange(0, 2).Draw(rt, "rbFault") == 0 {
+			last = C08Op{K: 12, A: rapid.IntRange(0, 2).Draw(rt, "rbFaultKind")}
+		}
+		c.Ops = append(c.Ops, C08Op{K: 1, A: a}, C08Op{K: 0}, C08Op{K: 1, A: b}, C08Op{K: 0}, C08Op{K: 1, A: a}, last)
 	}
 	n := rapid.IntRange(1, 20).Draw(rt, "nops")
 	for i := 0; i < n; i++ {
-		o := C08Op{K: rapid.SampledFrom([]int{0, 0, 0, 0, 0, 1, 1, 1, 2, 3, 4, 5, 6, 7, 8, 9, 9, 10, 11, 11}).Draw(rt, "op")}
+		o := C08Op{K: rapid.SampledFrom([]int{0, 0, 0, 0, 0, 1, 1, 1, 2, 3, 4, 5, 6, 7, 8, 9, 9, 10, 11, 11, 12, 12}).Draw(rt, "op")}
 		o.A = rapid.IntRange(0, 8).Draw(rt, "a")
 		o.B = rapid.IntRange(0, 1).Draw(rt, "b")
 		c.Ops = append(c.Ops, o)
@@ -250,14 +258,43 @@ func runC08(rep Rep, c C08Case) {
 					rep.Label("planted-name-collision")
 				}
 			}
-		case 0:
+		case 0, 12:
 			cl.RefreshAll()
 			cached := cl.CacheSet(NS, "web")
 			paused := helper.GetPausedReconcile(cached)
 			revsBefore := cl.Revs()
+			hit := false
+			if o.K == 12 {
+				cl.Intercept = func(a *sim.Action) *sim.Fault {
+					if hit || a.Resource != "controllerrevisions" || !a.IsWrite() {
+						return nil
+					}
+					hit = true
+					switch o.A % 3 {
+					case 0:
+						if rv := cl.Rev(a.Namespace, a.Name); rv != nil && a.Verb == "update" {
+							if rv.Annotations == nil {
+								rv.Annotations = map[string]string{}
+							}
+							rv.Annotations["touched"] = rv.ResourceVersion
+							cl.Put(rv)
+							rep.Label("revision-update-met-a-conflict")
+						}
+						return nil
+					case 1:
+						return &sim.Fault{Err: apierrors.NewTimeoutError("injected timeout (applied)", 1), Apply: true}
+					}
+					return &sim.Fault{Err: apierrors.NewInternalError(fmt.Errorf("injected server error"))}
+				}
+			}
 			r := cl.Reconcile(key)
+			cl.Intercept = nil
 			if r.Panic != nil {
 				rep.Violate("panic", "%s: reconcile panicked: %v\n%s", where, r.Panic, r.Stack)
+			}
+			if r.Err != nil && hit {
+				rep.Label("revision-write-failed")
+				continue // not a successful reconcile: the clauses below apply to the next one that succeeds
 			}
 			if r.Err != nil {
 				rep.Violate("reconcile/failed", "%s: reconcile failed without any injected fault: %v\n%s", where, r.Err, r.Transcript())
